@@ -36,7 +36,7 @@ class Model:
                 c["dseed"] = c.get("dseed", 0) + 1000 * variant
         self.lc = lc
         self.layer, self.comps = L.build(lc, True)
-        self.layer.train(True)
+        self.layer.train(case.get("mode", "train") == "train")
         self.mods = {"layer": self.layer}
         self.trainers = []
         cellname = {"serial": ("c0", "n0"), "recurrent": ("ff", "nff")}.get(lc["kind"])
@@ -84,13 +84,14 @@ class Model:
     def step(self, xs, t, labels, reward):
         outs, _ = C11._layer_step(self.lc, self.layer, {k: v[t] for k, v in xs.items()})
         obs = {f"out:{k}": v.detach().clone() for k, v in outs.items()}
-        for tr, tc in self.trainers:
-            if tc["cls"] in ("MSTDP", "MSTDPET"):
-                tr(reward[t])
-            else:
-                tr()
-        if self.trainers:
-            self.layer.update()
+        if self.layer.training:  # training loop as a user writes it: no trainer calls / updates while evaluating
+            for tr, tc in self.trainers:
+                if tc["cls"] in ("MSTDP", "MSTDPET"):
+                    tr(reward[t])
+                else:
+                    tr()
+            if self.trainers:
+                self.layer.update()
         main = outs[self.main]
         if self.reducer is not None:
             self.reducer(main if "Event" in type(self.reducer).__name__ or "Trace" in type(self.reducer).__name__ else main.float())
@@ -131,7 +132,7 @@ class Model:
         return buf.getvalue()
 
     def load(self, blob):
-        sd = torch.load(io.BytesIO(blob), weights_only=False)
+        sd = blob if isinstance(blob, dict) else torch.load(io.BytesIO(blob), weights_only=False)
         if self.case["container"]:
             self._container().load_state_dict(sd, strict=True)
         else:
@@ -174,7 +175,18 @@ def run_case(case):
         A = Model(case, 0)
     blobs, obsA, stA = {}, [], []
     spikes = 0
+    def mode_after(t):
+        """training flag in force when step t starts (switches at t are applied before step t)."""
+        m = case.get("mode", "train")
+        for st_, md in sorted(case.get("switches", []), key=lambda x: x[0]):  # one switch per step (generator)
+            if st_ <= t:
+                m = md
+        return m
+
     def clears(model, t, who):
+        for st_, md in case.get("switches", []):
+            if st_ == t:
+                model.layer.train(md == "train")
         for ct, what in case["clears"]:
             if ct == t:
                 with impl(f"{who}: {what} before step {t}"):
@@ -199,18 +211,39 @@ def run_case(case):
     differed = 0
     for k in range(1, T):
         with impl(f"build target for checkpoint {k}"):
-            Bm = Model(case, 1)
-            for j in range(case["prerun"]):
-                Bm.step(oxs, j % T, olabels, oreward)
-            if case["target_clear"] is not None:
-                Bm.clear_aux(case["target_clear"])
+            targets = [Model(case, 1)] + ([Model(case, 2)] if case.get("twins") else [])
+            for Bm in targets:
+                if case.get("prerun_mode"):
+                    Bm.layer.train(case["prerun_mode"] == "train")
+                for j in range(case["prerun"]):
+                    Bm.step(oxs, j % T, olabels, oreward)
+                if case.get("prerun_tail_eval"):  # the target's last step on other data was an evaluation step
+                    Bm.layer.train(False)
+                    Bm.step(oxs, case["prerun"] % T, olabels, oreward)
+                Bm.layer.train(mode_after(k - 1) == "train")  # the mode the source is in at the checkpoint
+                if case["target_clear"] is not None:
+                    Bm.clear_aux(case["target_clear"])
+            Bm = targets[0]
         ok0, _ = B.states_equal(stA[k - 1], Bm.state())
         differed += 0 if ok0 else 1
         with impl(f"load_state_dict(strict=True) of checkpoint taken after step {k} into an instance pre-run {case['prerun']} steps"):
-            Bm.load(blobs[k])
+            if len(targets) > 1:
+                # ONE deserialised checkpoint loaded into two live instances; both are then stepped
+                sd = torch.load(io.BytesIO(blobs[k]), weights_only=False)
+                for tg in targets:
+                    tg.load(sd)
+            else:
+                Bm.load(blobs[k])
         ok, why = B.states_equal(stA[k - 1], Bm.state())
         check(ok, "restore:state", lambda: f"checkpoint after step {k}: state right after loading differs from the source: {why}")
         for t in range(k, T):
+            for other in targets[1:]:  # the second instance restored from the same object advances first
+                clears(other, t, f"second resumed instance (checkpoint {k})")
+                with impl(f"second resumed instance step {t} (checkpoint {k})"):
+                    o2 = other.step(xs, t, labels, reward)
+                for name in obsA[t]:
+                    check(name in o2 and o2[name].shape == obsA[t][name].shape and torch.equal(o2[name], obsA[t][name]), "resume:output",
+                          lambda: f"checkpoint after step {k}, second instance restored from the same loaded object, step {t}: '{name}' differs")
             clears(Bm, t, f"resumed (checkpoint {k})")
             with impl(f"resumed step {t} (checkpoint {k})"):
                 o = Bm.step(xs, t, labels, reward)
@@ -228,6 +261,13 @@ def run_case(case):
         cls.append("delays")
     if case["container"]:
         cls.append("container")
+    if case.get("twins"):
+        cls.append("twins")
+    cls.append(f"mode={case.get('mode')}/prerun={case.get('prerun_mode')}")
+    if case.get("switches"):
+        cls.append("mode-switch")
+    if case.get("prerun_tail_eval"):
+        cls.append("prerun-tail-eval")
     for _, what in case["clears"]:
         cls.append("clear:" + what)
     if case["target_clear"] is not None:
@@ -244,6 +284,9 @@ def case_strategy(draw, tier="quick"):
     lc["capture"] = False
     for c in lc["conns"].values():
         c["syn"]["q"] = 150.0
+    for n in lc["neurs"].values():  # adaptive neurons (learned adaptations are part of the checkpoint) more often
+        if draw(st.booleans()):
+            n["cls"] = draw(st.sampled_from(["ALIF", "GLIF2", "Izhikevich", "AdEx"]))
     ntr = draw(st.sampled_from([0, 1, 1, 2]))
     names = ["STDP", "TripletSTDP", "MSTDP", "MSTDPET", "LinearHomeostasis"]
     cellconn = {"serial": "c0", "recurrent": "ff"}.get(lc["kind"], sorted(lc["conns"])[0])
@@ -257,6 +300,8 @@ def case_strategy(draw, tier="quick"):
         delayed = bool(lc["conns"][cellconn].get("delay")) and cls in ("STDP", "TripletSTDP", "MSTDP") and draw(st.booleans())
         trainers.append({"cls": cls, "a": draw(st.sampled_from([0.05, -0.05, 0.1])), "b": draw(st.sampled_from([-0.025, 0.05])),
                          "mode": draw(st.sampled_from(["cumulative", "nearest"])), "delayed": delayed})
+    # trainer monitors only record in training mode; with trainers present both runs stay in training mode so that
+    # the documented precondition (lazily shaped recorders have seen a step, shapes match) holds on both sides
     # two trainers writing colliding monitor names on one cell is C15's known finding: keep MSTDPET alone
     if len(trainers) == 2 and any(t["cls"] == "MSTDPET" for t in trainers):
         trainers = trainers[:1]
@@ -264,6 +309,12 @@ def case_strategy(draw, tier="quick"):
         "layer": lc, "steps": T, "sseed": draw(st.integers(0, 99999)), "rate": draw(st.sampled_from([0.4, 0.7])),
         "prerun": draw(st.sampled_from([1, 1, 2, 5])), "trainers": trainers,
         "container": draw(st.booleans()),
+        "twins": draw(st.integers(0, 3)) == 0,
+        "prerun_tail_eval": draw(st.booleans()),
+        "switches": draw(st.lists(st.tuples(st.integers(2, T - 1), st.sampled_from(["eval", "eval", "train"])).map(list), max_size=2,
+                                  unique_by=lambda x: x[0])),
+        "mode": draw(st.sampled_from(["train", "train", "eval"])) if not trainers else "train",
+        "prerun_mode": draw(st.sampled_from([None, "train", "eval"])) if not trainers else None,
         "clears": draw(st.lists(st.tuples(st.integers(1, T - 1), st.sampled_from(["aux_keepshape", "aux_keepshape", "aux", "layer"])).map(list),
                                 max_size=2)),
         "target_clear": draw(st.sampled_from([None, None, True])),  # keepshape=False would break the documented shape precondition
@@ -277,7 +328,7 @@ def case_strategy(draw, tier="quick"):
 
 LEGS = [
     Leg(name="resume", run=run_case, strategy=lambda tier: case_strategy(tier),
-        quick=12, thorough=150, quick_shards=12, thorough_shards=16, nt_floor=0.2,
+        quick=30, thorough=200, quick_shards=12, thorough_shards=16, nt_floor=0.2,
         rule="layer (Serial/Biclique/RecurrentSerial over generated neurons x synapses x connections, delays, in-place) + 0-2 trainers "
              "+ optional stand-alone reducer, OutputMonitor and MaxRateClassifier; run length 4-9 (thorough 4-16); EVERY checkpoint "
              "k in [1,T-1] is saved with torch.save, loaded (strict) into an independently built, pre-run instance and resumed; "
